@@ -346,6 +346,10 @@ func (p *Prog) abstractArg(ctx *symCtx, setter string, t types.Type, variant int
 						ctx.mem[ep] = sv{k: 's', i: strLens[k], addr: ep}
 						continue
 					}
+					if p.cache["c10wide"] != nil && k == 0 && setter == "AddUserProp" {
+						ctx.mem[ep] = sv{k: 's', i: 0, addr: ep} // an empty key: invalid, constructible
+						continue
+					}
 					if k%2 == 1 && variant%2 == 1 {
 						// key/value lists: every second element (a value) is the empty string in the variant states
 						ctx.mem[ep] = sv{k: 's', i: 0, addr: ep}
@@ -473,10 +477,15 @@ func (p *Prog) buildState(tn string, choose func(setter string) int, will *packe
 				}
 				var a sv
 				var ok bool
-				if zero {
-					a, ok = zeroArg(pt, fmt.Sprintf("zero:%s", s.Name()))
+				za, _ := p.cache["zeroarg"].(int)
+				tag := s.Name()
+				if i > 0 {
+					tag = fmt.Sprintf("%s·arg%d", s.Name(), i+1) // every parameter its own identity
+				}
+				if zero || (za == i+1 && s.Signature.Params().Len() > 1) {
+					a, ok = zeroArg(pt, fmt.Sprintf("zero:%s", tag))
 				} else {
-					a, ok = p.abstractArg(ctx, s.Name(), pt, variant)
+					a, ok = p.abstractArg(ctx, tag, pt, variant)
 				}
 				if !ok {
 					return nil, false
@@ -550,6 +559,16 @@ func (p *Prog) buildState(tn string, choose func(setter string) int, will *packe
 			if a2, ok := p.abstractArg(ctx, s.Name()+"·2", s.Signature.Params().At(0).Type(), variant+2); ok {
 				if _, ok := ctx.evalPure(s, []sv{args[0], a2}, nil, 0); !ok {
 					return nil, "cannot evaluate " + s.Name() + " (second call): " + ctx.why
+				}
+			}
+		}
+		// … and in the variant states a string adder gets the empty string as a third element (a zero-length item
+		// between others: a decoder that reuses its destination would repeat the previous one)
+		if strings.HasPrefix(s.Name(), "Add") && s.Signature.Params().Len() == 1 && !s.Signature.Variadic() && variant%2 == 1 {
+			pt0 := s.Signature.Params().At(0).Type()
+			if bt, ok := pt0.Underlying().(*types.Basic); ok && bt.Info()&types.IsString != 0 {
+				if _, ok := ctx.evalPure(s, []sv{args[0], {k: 's', i: 0, addr: "val:" + s.Name() + ":empty"}}, nil, 0); !ok {
+					return nil, "cannot evaluate " + s.Name() + " (empty element): " + ctx.why
 				}
 			}
 		}
@@ -1393,6 +1412,8 @@ type stateSpec struct {
 	intOnly   bool  // the bias applies to integer arguments only
 	emptyList bool  // the payload list (filters, reason codes) stays empty
 	stretch   int64 // > 0: the user properties added by AddUserProp occupy this many bytes more than the usual two one-byte strings
+	zeroArg   int   // > 0: setters with several parameters get the zero value for parameter number zeroArg (1-based)
+	wide      bool  // C10's wider domain: values that are constructible but outside MQTT's ranges (subscription identifier 0, a packet identifier without QoS, an empty user-property key)
 }
 
 // boundaryValues: the boundary lengths named by the properties' quantifiers (C01: 0, 1, 127, 128, 16 383, 16 384,
@@ -1516,6 +1537,14 @@ func (p *Prog) buildStateSpec(tn string, spec stateSpec, choose func(string) int
 		p.cache["stretch"] = spec.stretch
 		defer delete(p.cache, "stretch")
 	}
+	if spec.wide {
+		p.cache["c10wide"] = true
+		defer delete(p.cache, "c10wide")
+	}
+	if spec.zeroArg > 0 {
+		p.cache["zeroarg"] = spec.zeroArg
+		defer delete(p.cache, "zeroarg")
+	}
 	return p.buildState(tn, choose, will)
 }
 
@@ -1565,8 +1594,12 @@ var zeroOutsideDomain = map[string]bool{"Subscribe.SetSubscriptionID": true}
 func (p *Prog) stateSpecs(tn string) []stateSpec {
 	nt := p.Pkg.Scope().Lookup(tn).Type().(*types.Named)
 	var names []string
+	nparams := map[string]int{}
 	for _, s := range p.settersOf(nt) {
 		names = append(names, s.Name())
+		if !s.Signature.Variadic() {
+			nparams[s.Name()] = s.Signature.Params().Len()
+		}
 	}
 	var out []stateSpec
 	hasWill := false
@@ -1617,7 +1650,7 @@ func (p *Prog) stateSpecs(tn string) []stateSpec {
 					return 0
 				}
 				// fields that exist on the wire only together with another one
-				if dep, ok := dependsOnSetter[tn+"."+n]; ok {
+				if dep, ok := dependsOnSetter[tn+"."+n]; ok && p.cache["c10wide"] == nil {
 					if dep == "SetWill" && (w == 0 || w == 3) {
 						return -1
 					}
@@ -1649,7 +1682,7 @@ func (p *Prog) stateSpecs(tn string) []stateSpec {
 			if n == "SetProtocolName" || n == "SetProtocolVersion" {
 				return -1
 			}
-			if zeroOutsideDomain[tn+"."+n] {
+			if zeroOutsideDomain[tn+"."+n] && p.cache["c10wide"] == nil {
 				return 0
 			}
 			return stateClear
@@ -1665,6 +1698,18 @@ func (p *Prog) stateSpecs(tn string) []stateSpec {
 				}
 				return -1
 			}), will: w})
+			// a mutator with several parameters: once more with each parameter in turn left at its zero value (the
+			// flags that follow from one argument must not be computed from another)
+			if np := nparams[one]; np > 1 && w == 0 {
+				for k := 1; k <= np; k++ {
+					out = append(out, stateSpec{name: fmt.Sprintf("only %s, argument %d zero", one, k) + wtag, choose: pick(func(n string) int {
+						if n == one {
+							return 0
+						}
+						return -1
+					}), will: w, zeroArg: k})
+				}
+			}
 			if w == 0 {
 				// the same setter alone with its second representative value (a non-zero success-class reason code,
 				// an empty value in a key/value list, the largest valid option byte …)
